@@ -65,6 +65,10 @@ _OOO_NAMESPACES = {
     "xsi": "http://www.w3.org/2001/XMLSchema-instance",
 }
 _NUMBER_COLUMNS_REPEATED = "{" + _OOO_NAMESPACES["table"] + "}number-columns-repeated"
+_TEXT_C = "{" + _OOO_NAMESPACES["text"] + "}c"
+_TEXT_LINE_BREAK = "{" + _OOO_NAMESPACES["text"] + "}line-break"
+_TEXT_S = "{" + _OOO_NAMESPACES["text"] + "}s"
+_TEXT_TAB = "{" + _OOO_NAMESPACES["text"] + "}tab"
 
 
 def _excel_cell_value(cell, datemode):
@@ -220,6 +224,32 @@ def _findall(element, xpath, namespaces):
     return result
 
 
+def _ods_text(element, location):
+    """
+    The text in ``element`` including the text of nested elements such as
+    ``text:span`` and with ``text:s``, ``text:tab`` and ``text:line-break``
+    resolved to blanks, tabulator and line feed.
+    """
+    result = element.text or ""
+    for child in element:
+        if child.tag == _TEXT_S:
+            blank_count_text = child.attrib.get(_TEXT_C, "1")
+            try:
+                result += " " * int(blank_count_text)
+            except ValueError:
+                raise errors.DataFormatError(
+                    "text:c is %s but must be an integer" % _compat.text_repr(blank_count_text), location
+                )
+        elif child.tag == _TEXT_TAB:
+            result += "\t"
+        elif child.tag == _TEXT_LINE_BREAK:
+            result += "\n"
+        else:
+            result += _ods_text(child, location)
+        result += child.tail or ""
+    return result
+
+
 def ods_rows(source_ods_path, sheet=1):
     """
     Rows stored in ODS document ``source_ods_path`` in ``sheet``.
@@ -284,11 +314,9 @@ def ods_rows(source_ods_path, sheet=1):
                     "table:number-columns-repeated is %s but must be an integer" % _compat.text_repr(repeated_text),
                     location,
                 )
-            text_p = table_cell.find("text:p", namespaces=_OOO_NAMESPACES)
-            if text_p is None:
-                cell_value = ""
-            else:
-                cell_value = text_p.text
+            cell_value = "\n".join(
+                _ods_text(text_p, location) for text_p in _findall(table_cell, "text:p", namespaces=_OOO_NAMESPACES)
+            )
             row.extend([cell_value] * repeated_count)
             location.advance_cell(repeated_count)
         yield row
